@@ -596,6 +596,10 @@ fn cli_worlds_differ(env: &vsim::clisim::run::Env, tree: &vsim::clisim::types::T
     if oa.signal.is_some() || ob.signal.is_some() {
         return Ok(None);
     }
+    if !vsim::clisim::run::fired(&ob.trace).transient_read.is_empty() && ob.exit != Some(0) {
+        // world B met a transient read error and said so: an honest failure, no verdict
+        return Ok(None);
+    }
     let strip = |o: &vsim::clisim::run::Outcome| -> Vec<u8> {
         // the summary line of format-all contains a duration
         if matches!(a.shape, Shape::FormatAll { .. }) {
@@ -751,6 +755,18 @@ fn cli_worlds_lane(base: u64, n: u64, workers: usize) -> CliLane {
                 vsim::clisim::plan::add_plan(&mut frng, "benign", &case.tree, &mut b, &mut oracle, 40);
                 if b.env.is_empty() {
                     b.env.push(("COLUMNS".into(), "33".into()));
+                }
+                // a flaky mount in world B: one read of one input fails once (ETIMEDOUT/EAGAIN/EIO)
+                // and works afterwards. A process that reports the failure (exit status not 0)
+                // gives no verdict; one that claims success must have produced what world A did.
+                if frng.chance(0.15) {
+                    let pred = vsim::clisim::model::predict(&case.tree, &b, &Default::default(), &mut oracle);
+                    let cands: Vec<(String, usize)> = pred.inputs.iter().filter(|i| i.named != "<stdin>" && !matches!(i.class, vsim::clisim::model::InputClass::Unreadable(_))).map(|i| (i.named.clone(), i.len)).collect();
+                    if !cands.is_empty() {
+                        let (p, len) = frng.pick(&cands).clone();
+                        let k = if frng.chance(0.3) { 0 } else { frng.below(len + 1) };
+                        b.plan.push(vsim::clisim::types::Rule::new("tread", &p, format!("+{}", k), *frng.pick(&["ETIMEDOUT", "EAGAIN", "EIO"])));
+                    }
                 }
                 // a machine whose clock was never set (2001), or one far ahead (2033)
                 match frng.below(4) {
